@@ -100,10 +100,9 @@ def run(ctx):
     cfgp = os.path.join(vlib.SPEC, "MC_Poly_run.cfg")
     open(cfgp, "w").write(open(os.path.join(vlib.SPEC, "MC_Poly.cfg")).read().replace("MaxOps = 3", "MaxOps = %d" % (3 if ctx.tier == "quick" else 4)))
     try:
-        r = vlib.tlc("MC_Poly", cfg="MC_Poly_run.cfg", workers=4, timeout=900, deque=False)
+        r = vlib.e1(ctx, "MC_Poly", "MC_Poly", ["Set", "Purge", "PurgeL", "AddP", "MulS"], cfg="MC_Poly_run.cfg", workers=4, timeout=900)
     finally:
         os.remove(cfgp)
-    ctx.add_tlc(r, e1=True)
     p2 = ctx.path("c13-fn-gen.ndjson")
     hist = fncommon.gen_tlc(ctx, "Gen_C13", "c13", env={"VH_CASES2": p2}, timeout=1200, xmx="8g")
     fn = vlib.read_ndjson(p2)
